@@ -367,9 +367,9 @@ impl PayloadHistory {
             // the target serial the caller has. So we can skip over anything
             // smaller.
             match delta.serial().partial_cmp(&serial) {
-                Some(cmp::Ordering::Greater) => return None,
+                Some(cmp::Ordering::Greater) | None => return None,
                 Some(cmp::Ordering::Equal) => break,
-                _ => continue
+                Some(cmp::Ordering::Less) => continue
             }
         }
 
